@@ -28,6 +28,7 @@ func init() {
 		ID:      "C09",
 		Flavour: "plain",
 		Rule: "hash cases = (message, DST, slice layout) as for C08 (lengths around SHA-256 block boundaries, DST lengths on both sides of 255 and at 65535..196863 bytes, nil/empty DST must panic, spare-capacity sub-slices, PRNG pairs), buffer-reuse sequences (successive DSTs written into the same buffer) and concurrent batches. " +
+			"Message lengths 0..520 against 49/16/255/256-byte tags; call sequences on fresh buffers in which HashToScalar follows HashToGroup / EncodeToGroup calls under the same tag (96- then 48-byte expansion), colliding tag/message framings, 1-3 byte tags, repeats. " +
 			"reduce cases = 48-byte strings fed to the wide-reduction step alone (the step a hash output cannot steer): low and high 24-byte halves independently from {0,1,2^192-1,2^191,limb patterns,random}, " +
 			"k*n and k*n±1 for k up to 2^128 (results 0, 1, n-1 needing the final subtraction), all-ones, 2^384-1 neighbours, PRNG. " +
 			"Oracle: OS2IP(expand_message_xmd(msg,DST,48)) mod n, resp. OS2IP(b) mod n, in math/big; the stored limbs must be < n. non-trivial = all non-panicking cases; distinct by input.",
